@@ -15,6 +15,22 @@
 (* With continue-on-error the errors of completed jobs are in p.Wait()'s       *)
 (* result (WorkerPool) resp. were passed to the observer (HandlerWorkerPool).  *)
 (* After the shutdown event or an abort nothing but "at most once" is judged.  *)
+(*                                                                            *)
+(* Outcome kinds: ok, error (plain), panic, and eof / canceled / deadline - a  *)
+(* job error that wraps io.EOF, context.Canceled or context.DeadlineExceeded.  *)
+(* A worker group documents those as stop signals that are never observed      *)
+(* (fun.WorkerGroupConf.CanContinueOnError, opts.go:73-111: "Neither io.EOF    *)
+(* nor ErrIteratorSkip errors are ever observed ... Context cancellation       *)
+(* errors are observed only when configured"), and WorkerPool "follows the     *)
+(* semantics configured by the options".  Reading (weakest obligation): a job  *)
+(* ending with such an error ends the regime in which "the pool keeps running" *)
+(* - with or without continue-on-error, for both kinds of pool - and           *)
+(* WorkerPool's Wait() is not required to report it; HandlerWorkerPool passes  *)
+(* every job's error to the observer, so the observer must have seen it.       *)
+(*                                                                            *)
+(* Jobs are interchangeable (identified by their place in the order of         *)
+(* acceptance, which the schedule chooses): only job configurations sorted     *)
+(* along the job names are explored.                                           *)
 (***************************************************************************)
 EXTENDS Integers, Sequences, FiniteSets, TLC, Json
 
@@ -32,8 +48,16 @@ view == <<pcfg, ucfg, acc, nstart, fin, started, ended, aborted, st>>
 AddId(j) == "add_" \o j
 OpIds == {AddId(j) : j \in Jobs} \cup Waiters \cup {"ps"}
 
+KindOrd == <<"ok", "error", "panic", "eof", "canceled", "deadline">>
+ModeOrd == <<"gate", "ctx">>
+NameOrd == <<"j1", "j2", "j3", "j4", "j5">>
+Idx(s, x) == CHOOSE i \in 1..Len(s) : s[i] = x
+Rank(c) == Idx(ModeOrd, c.mode) * 10 + Idx(KindOrd, c.kind)
+Sorted(u) == \A x, y \in Jobs : Idx(NameOrd, x) < Idx(NameOrd, y) => Rank(u[x]) <= Rank(u[y])
+TermKinds == {"eof", "canceled", "deadline"}
+
 Init == /\ pcfg \in [comp : Comps, workers : Workers, cont : Conts]
-        /\ ucfg \in [Jobs -> [kind : Kinds, mode : Modes]]
+        /\ ucfg \in {u \in [Jobs -> [kind : Kinds, mode : Modes]] : Sorted(u)}
         /\ acc = <<>> /\ nstart = 0 /\ fin = {} /\ started = FALSE /\ ended = FALSE /\ aborted = FALSE
         /\ st = [o \in OpIds |-> "idle"] /\ hist = <<>>
 
@@ -44,7 +68,7 @@ InFlight(ns, fi) == {acc[i] : i \in 1..ns} \ fi
 
 R(k) == [k |-> k, must |-> {}, pan |-> "any", nil |-> "any"]
 Fail(j) == IF ucfg[j].kind = "error" THEN {"e:" \o j} ELSE IF ucfg[j].kind = "panic" THEN {"p:" \o j} ELSE {}
-ErrOnly(j) == IF ucfg[j].kind = "error" THEN {"e:" \o j} ELSE {}
+ErrOnly(j) == IF ucfg[j].kind \in {"error"} \cup TermKinds THEN {"e:" \o j} ELSE {}
 Agg(fi) == [k |-> "agg", must |-> IF pcfg.comp = "pool" /\ pcfg.cont THEN UNION {Fail(j) : j \in fi} ELSE {},
             pan |-> IF pcfg.comp = "pool" /\ pcfg.cont /\ \E j \in fi : ucfg[j].kind = "panic" THEN "t" ELSE "any", nil |-> "any"]
 
@@ -66,7 +90,7 @@ Commit(op, id, arg, ac, ns, fi, sd, en, ab, st2, res2) ==
                   exp |-> [ops |-> {[id |-> o, allow |-> Allow(o)] : o \in listed},
                            cnt |-> {[id |-> j, allow |-> {0, 1}] : j \in Jobs},
                            started |-> IF judged THEN {ns} ELSE IF sd THEN {} ELSE {0},
-                           seen |-> IF pcfg.comp = "hpool" /\ pcfg.cont /\ judged
+                           seen |-> IF pcfg.comp = "hpool" /\ pcfg.cont /\ sd /\ ~en
                                       THEN {[id |-> "observer", allow |-> {[k |-> "agg", must |-> UNION {ErrOnly(j) : j \in fi}, pan |-> "any", nil |-> "any"]}]}
                                       ELSE {}]])
 
@@ -82,10 +106,10 @@ StartOp == /\ ~started /\ ~ended
            /\ Commit("start", "ps", "none", acc, Fill(acc, fin, TRUE, ended, aborted), fin, TRUE, ended, aborted,
                      [st EXCEPT !["ps"] = "done"], [NoRes EXCEPT !["ps"] = {R("nil")}])
 
-\* job j returns; without continue-on-error a failure ends the judged regime
+\* job j returns; without continue-on-error a failure ends the judged regime, a stop-signal error always does
 FinishOp(j) == /\ j \in InFlight(nstart, fin) /\ ucfg[j].mode = "gate"
                /\ LET fi == fin \cup {j}
-                      ab == aborted \/ (~pcfg.cont /\ ucfg[j].kind # "ok")
+                      ab == aborted \/ (~pcfg.cont /\ ucfg[j].kind # "ok") \/ ucfg[j].kind \in TermKinds
                   IN Commit("finish", "none", j, acc, Fill(acc, fi, started, ended, ab), fi, started, ended, ab, st, NoRes)
 
 \* the shutdown event: jobs waiting for their context return
